@@ -1,15 +1,27 @@
 #!/usr/bin/env python3
-"""Prints the markdown table of seeded changes from /verif/seeded/*/meta.json."""
-import glob, json, os
-rows = []
-for f in sorted(glob.glob('/verif/seeded/*/meta.json')):
+"""Prints the markdown tables of seeded changes (one per round) from /verif/seeded/*/meta.json.
+Round 1 = <id>, round 2 = <id>b, round 3 = <id>c."""
+import glob, json, os, re
+
+# seeds the first version of the property's check did not report (see DESIGN.md section 12 for what was added)
+MISSED_FIRST = {
+    1: {"C02": "quick (thorough caught it)", "C11": "", "C13": ""},
+    2: {"C01": "", "C05": "quick (thorough caught it)", "C06": "", "C08": "", "C09": "", "C13": "", "C20": ""},
+    3: {"C01": "", "C03": "", "C05": "", "C07": "", "C08": "", "C10": "", "C11": "", "C12": "", "C14": "", "C17": "", "C19": "", "C20": ""},
+}
+
+
+def row(f):
     m = json.load(open(f))
     name = os.path.basename(os.path.dirname(f))
     ag = m.get('agent') or {}
-    summ = (ag.get('summary') or '')[:230].replace('|', '/').replace('\n', ' ')
-    need = (ag.get('needs_to_manifest') or '')[:200].replace('|', '/').replace('\n', ' ')
+    files = ', '.join('`%s`' % os.path.basename(x) for x in (m.get('changed_files') or ag.get('files') or []))
+    summ = (ag.get('summary') or '').replace('|', '/').replace('\n', ' ')
+    summ = summ[:260] + ('...' if len(summ) > 260 else '')
+    need = (ag.get('needs_to_manifest') or '').replace('|', '/').replace('\n', ' ')
+    need = need[:180] + ('...' if len(need) > 180 else '')
     demo = m.get('demo') or []
-    demo_ok = 'yes' if demo and all(d['fails_with_change'] and d['passes_without_change'] for d in demo) else ('n/a' if not demo else 'NO')
+    demo_ok = 'yes / yes' if demo and all(d['fails_with_change'] and d['passes_without_change'] for d in demo) else ('not run' if not demo else 'NO')
     base = m.get('baseline_passes_with_change')
     base_s = {True: 'yes', False: 'NO', None: 'not run'}[base]
     ch = m.get('checks') or {}
@@ -17,12 +29,26 @@ for f in sorted(glob.glob('/verif/seeded/*/meta.json')):
     for c, rs in ch.items():
         for r in rs:
             if r['exit'] == 1:
-                det.append('%s %s (%s)' % (c, r['tier'], ', '.join(s.split('@')[0] for s in r['signatures'][:2])))
+                sigs = sorted(set(s.split('@')[0] for s in r['signatures']))
+                det.append('%s %s: %s' % (c, r['tier'], ', '.join('`%s`' % s for s in sigs[:2])))
                 break
         else:
             det.append('%s MISSED' % c)
-    hist = m.get('history_note', '')
-    rows.append('| %s | %s | %s | %s | %s | %s %s |' % (name, summ, need, base_s, demo_ok, '; '.join(det), hist))
-print('| seed | change | needs | suite passes | demo fails-with / passes-without | caught by |')
-print('|---|---|---|---|---|---|')
-print('\n'.join(rows))
+    return name, '| %s | %s | %s | %s | %s | %s | %s |' % (name, files, summ, need, base_s, demo_ok, '; '.join(det))
+
+
+rounds = {1: [], 2: [], 3: []}
+for f in sorted(glob.glob('/verif/seeded/*/meta.json')):
+    name = os.path.basename(os.path.dirname(f))
+    rnd = {'': 1, 'b': 2, 'c': 3}[re.sub(r'^C\d\d', '', name)]
+    rounds[rnd].append(row(f))
+for rnd in (1, 2, 3):
+    if not rounds[rnd]:
+        continue
+    print('\n**Round %d** (%d changes)\n' % (rnd, len(rounds[rnd])))
+    print('| seed | file | change | what it needs to manifest | suite passes with it | demo fails with / passes without | reported by (final machinery) |')
+    print('|---|---|---|---|---|---|---|')
+    for name, line in rounds[rnd]:
+        print(line)
+    miss = MISSED_FIRST[rnd]
+    print('\nMissed by the first version of the check that met it: %s.' % (', '.join('%s%s' % (k + {1: '', 2: 'b', 3: 'c'}[rnd], (' - ' + v) if v else '') for k, v in sorted(miss.items())) or 'none'))
